@@ -74,6 +74,12 @@ func replay(sub string, raw json.RawMessage) ([]h.Failure, error) {
 			return nil, err
 		}
 		return checkRepeat(c), nil
+	case "order":
+		var c orderCase
+		if err := json.Unmarshal(raw, &c); err != nil {
+			return nil, err
+		}
+		return checkOrder(c), nil
 	case "exprmap":
 		var c exprMapCase
 		if err := json.Unmarshal(raw, &c); err != nil {
@@ -336,6 +342,68 @@ func genJSONDoc(t *rapid.T, depth int) string {
 		parts = append(parts, fmt.Sprintf("%q:%s", k, v))
 	}
 	return "{" + strings.Join(parts, ",") + "}"
+}
+
+// equality of dictionaries is a function of their contents: writing the entries of either
+// operand in another order changes nothing about the answer - also when some entries cannot
+// be compared at all (objects, methods) and others differ
+type orderCase struct {
+	SrcA string `json:"src_a"`
+	SrcB string `json:"src_b"`
+}
+
+func checkOrder(c orderCase) []h.Failure {
+	obs := func(src string) string {
+		o := h.Run(src, h.Opts{EvalTicks: 100000})
+		return fmt.Sprintf("kind=%s value=%s %q code=%d", o.Kind, o.ValType, o.ValText, o.ErrCode)
+	}
+	a, b := obs(c.SrcA), obs(c.SrcB)
+	if strings.HasPrefix(a, "kind="+h.KPanic) || strings.HasPrefix(b, "kind="+h.KPanic) {
+		return []h.Failure{{Sig: "order/crash", Msg: c.SrcA + "\n" + a + "\n" + c.SrcB + "\n" + b}}
+	}
+	if a != b {
+		return []h.Failure{{Sig: "order/answer-depends-on-insertion-order", Msg: fmt.Sprintf("entries written in one order:\n%s\n-> %s\nthe same entries written in another order:\n%s\n-> %s", c.SrcA, a, c.SrcB, b)}}
+	}
+	return nil
+}
+
+func TestInsertionOrderIrrelevant(t *testing.T) {
+	rapid.Check(t, func(t *rapid.T) {
+		n := rapid.IntRange(2, 6).Draw(t, "n")
+		keys := rapid.Permutation([]string{"q", "w", "e", "r", "t", "y"}).Draw(t, "keys")[:n]
+		var ps, qs []string
+		hard, diff := 0, 0
+		for i, k := range keys {
+			va, vb := fmt.Sprint(i), fmt.Sprint(i)
+			switch rapid.IntRange(0, 4).Draw(t, "ek") {
+			case 0:
+				va, vb = "物", "物"
+				hard++
+			case 1:
+				va, vb = "物", "另"
+				hard++
+			case 2:
+				vb = "99"
+				diff++
+			case 3:
+				va, vb = "某法", "某法"
+				hard++
+			}
+			ps = append(ps, fmt.Sprintf("“%s” = %s", k, va))
+			qs = append(qs, fmt.Sprintf("“%s” = %s", k, vb))
+		}
+		rel := rapid.SampledFrom([]string{"输出甲 为 乙", "输出甲 == 乙", "输出甲 不为 乙", "输出甲 /= 乙", "输出以【甲】（包含：乙）", "输出以【1，甲】（寻找：乙）", "输出【“p” = 甲】 为 【“p” = 乙】", "输出【甲】 == 【乙】"}).Draw(t, "rel")
+		prog := func(ps, qs []string) string {
+			return "定义狗：\n    其名 = “黄”\n如何某法？\n    输出1\n令物 = （新建狗）\n令另 = （新建狗）\n令甲 = 【" + strings.Join(ps, "，") + "】\n令乙 = 【" + strings.Join(qs, "，") + "】\n" + rel
+		}
+		c := orderCase{SrcA: prog(ps, qs), SrcB: prog(rapid.Permutation(ps).Draw(t, "perm-a"), rapid.Permutation(qs).Draw(t, "perm-b"))}
+		labels := []string{"insertion-order-permuted"}
+		if hard > 0 && diff > 0 {
+			labels = append(labels, "incomparable-entry-next-to-differing-entry")
+		}
+		key, _ := json.Marshal(c)
+		h.R.Case(t, "order", string(key), c, labels, hard > 0 && diff > 0, checkOrder(c))
+	})
 }
 
 func TestRepeatPrograms(t *testing.T) {
